@@ -188,10 +188,11 @@ func H_C01_match() {
 	var sel, lit string
 	withUnknown, unk := false, 0
 	if vTier() == 0 {
-		// quick: every (shape, operator) pair, with the three direct selector
+		// quick: every (shape, operator) pair, with five structural selector
 		// forms plus one seed-selected other, "1" plus one seed-selected
 		// literal, no unknown value or one seed-selected
-		sel = selsC01[[]int{0, 1, 2, 3 + vSeed()%12}[vChoose(4)]]
+		// selsC01: 0 x, 1 x.a, 2 x.0, 3 x.b (absent leaf), 14 x.a.b (three parts: absent or scalar middle)
+		sel = selsC01[[]int{0, 1, 2, 3, 14, 4 + vSeed()%10}[vChoose(6)]]
 		lit = litsC01[[]int{0, 1 + vSeed()%5}[vChoose(2)]]
 		withUnknown, unk = vChoose(2) == 0, vSeed()%3
 	} else {
